@@ -114,8 +114,61 @@ fn backend_conn(mut s: TcpStream, who: &'static str) {
         let delay: u64 = header(&head, "x-delay").and_then(|v| v.parse().ok()).unwrap_or(0);
         let clen: Option<usize> = header(&head, "content-length").and_then(|v| v.parse().ok());
         let chunked = header(&head, "transfer-encoding").map(|v| v.to_ascii_lowercase().contains("chunked")).unwrap_or(false);
+        let flow = header(&head, "x-flow").unwrap_or("").to_string();
         mark_seen(&req, who);
         buf.drain(..head_end);
+        // life stages of an exchange beyond "request, then response" (see `open_flow_slot`): what the backend sends
+        // next waits for the gate of the request, which the orchestrating thread opens at the release moment
+        match flow.as_str() {
+            // the client withholds its body until the interim response
+            "expect" => {
+                if !flow_gate(&req) || s.write_all(b"HTTP/1.1 100 Continue\r\n\r\n").is_err() {
+                    return;
+                }
+            }
+            // protocol upgrade: 101, then the connection is a tunnel (every piece received is answered by a line)
+            "upgrade" => {
+                if !flow_gate(&req) {
+                    return;
+                }
+                let r = format!("HTTP/1.1 101 Switching Protocols\r\nConnection: Upgrade\r\nUpgrade: websocket\r\nX-Be: {who}\r\n\r\n");
+                if s.write_all(r.as_bytes()).is_err() {
+                    return;
+                }
+                s.set_read_timeout(Some(Duration::from_secs(20))).ok();
+                loop {
+                    match s.read(&mut tmp) {
+                        Ok(0) | Err(_) => return,
+                        Ok(_) => {
+                            if s.write_all(format!("{who}:{req}\n").as_bytes()).is_err() {
+                                return;
+                            }
+                        }
+                    }
+                }
+            }
+            // final response from the request head, while the client is still uploading the body
+            "early" => {
+                if !flow_gate(&req) {
+                    return;
+                }
+                let body = format!("{who}:{req}");
+                let r = format!("HTTP/1.1 200 OK\r\nContent-Length: {}\r\nContent-Type: text/plain\r\nConnection: close\r\n\r\n{}", body.len(), body);
+                if s.write_all(r.as_bytes()).is_err() {
+                    return;
+                }
+                // no reset under the response: half-close, then wait for the proxy's close
+                let _ = s.shutdown(std::net::Shutdown::Write);
+                s.set_read_timeout(Some(Duration::from_secs(20))).ok();
+                while let Ok(n) = s.read(&mut tmp) {
+                    if n == 0 {
+                        break;
+                    }
+                }
+                return;
+            }
+            _ => {}
+        }
         if chunked {
             loop {
                 if let Some(p) = find(&buf, b"0\r\n\r\n") {
@@ -140,6 +193,27 @@ fn backend_conn(mut s: TcpStream, who: &'static str) {
         if delay > 0 {
             thread::sleep(Duration::from_millis(delay));
         }
+        match flow.as_str() {
+            // one or two 103 Early Hints, the final response well after them (more than two shutdown passes)
+            "hints" | "hints2" => {
+                if !flow_gate(&req) {
+                    return;
+                }
+                for _ in 0..(if flow == "hints2" { 2 } else { 1 }) {
+                    if s.write_all(b"HTTP/1.1 103 Early Hints\r\nLink: </c10.css>; rel=preload; as=style\r\n\r\n").is_err() {
+                        return;
+                    }
+                    thread::sleep(Duration::from_millis(FLOW_FINAL_DELAY_MS));
+                }
+            }
+            // a plain exchange whose answer waits for the gate (the first of two pipelined requests)
+            "gate" => {
+                if !flow_gate(&req) {
+                    return;
+                }
+            }
+            _ => {}
+        }
         if let Some(spec) = header(&head, "x-resp").and_then(RespSpec::parse) {
             if serve_big(&mut s, who, &req, &spec) {
                 continue;
@@ -152,6 +226,18 @@ fn backend_conn(mut s: TcpStream, who: &'static str) {
             return;
         }
     }
+}
+
+/// the final response follows an interim one after this long: more than two passes of shut_down_sessions
+const FLOW_FINAL_DELAY_MS: u64 = 250;
+
+/// waits until the orchestrating thread opens the gate of `req`; false: it never did
+fn flow_gate(req: &str) -> bool {
+    let ok = resp_wait(req, Duration::from_secs(60), |st| st.gate);
+    if !ok {
+        resp_update(req, |st| st.failed = Some("the gate was never opened".into()));
+    }
+    ok
 }
 
 fn spawn_http_backend(who: &'static str) -> SocketAddr {
@@ -1055,6 +1141,11 @@ struct SlotSpec {
     /// waits in the stream's buffer); true: windows wide open, but the client does not read its socket (the
     /// tail waits in the stream's buffer and in the TLS layer, behind a full socket)
     tcp_stall: bool,
+    /// life stage of the exchange beyond "request, then response" ("" = none): expect (head sent with
+    /// `Expect: 100-continue`, body withheld until the interim response), hints / hints2 (103 Early Hints before
+    /// the final response), upgrade (101, then a tunnel), early (final response while the body is still being
+    /// uploaded), pipelined (a second request already written behind the one in flight)
+    flow: &'static str,
 }
 
 #[derive(Clone, Debug)]
@@ -1462,8 +1553,241 @@ fn open_resp_slot(sp: &SlotSpec, r: usize, a: usize, addr: SocketAddr, be_addr: 
     Ok((Conn::H2(Box::new(c)), ctx))
 }
 
+// ------------------------------------------------------------------------------------------------
+// slots parked in a life stage of the exchange beyond "request, then response"
+//
+// A request in flight passes through more stages than "awaiting the response / response streaming": the body
+// withheld until `100 Continue`, interim responses (103) before the final one, an upgrade handshake (101, then a
+// tunnel), a final response that overtakes the upload of the body, a second request already written behind the
+// one in flight. In each of them the proxy sees a "message complete" that is NOT the end of the exchange. The
+// slot is parked in that stage with the backend holding its next message back (gate); the gate opens at the
+// release moment - for `afterStop` a few hundred ms after the `Processing` notice of the stop, i.e. after several
+// passes of shut_down_sessions - and the exchange must then go on to its end.
+
+fn flow_head(method: &str, req: &str, flow: &str, body_len: Option<usize>, extra: &str) -> String {
+    format!("{method} /c10 HTTP/1.1\r\nHost: localhost\r\nX-Req: {req}\r\nX-Delay: 0\r\nX-Flow: {flow}\r\n{}{extra}\r\n",
+        body_len.map(|l| format!("Content-Length: {l}\r\n")).unwrap_or_default())
+}
+
+fn open_flow_slot(sp: &SlotSpec, r: usize, a: usize, addr: SocketAddr, req: &str, ctl: &mut Ctl) -> Result<Conn, String> {
+    let open_ev = |stage: &str| json!({"e": "SlotOpen", "r": r, "a": a, "stage": stage, "partial": false, "flow": sp.flow});
+    let tcp = TcpStream::connect_timeout(&addr, T_IO).map_err(|e| format!("connect: {e}"))?;
+    tcp.set_nodelay(true).ok();
+    tcp.set_write_timeout(Some(T_IO)).ok();
+    if sp.stage.starts_with("h2") {
+        // 103 Early Hints on an HTTP/2 stream
+        let mut c = tls_over(tcp, T_IO).map_err(|e| format!("tls: {e}"))?;
+        let l = BODY.len().to_string();
+        let okk = c.client_preface(&[]) && {
+            let block = h2::request_block(&mut c.hp, "POST", "https", "localhost", "/c10", &[("x-req", req), ("x-delay", "0"), ("x-flow", sp.flow), ("content-length", &l)]);
+            c.send(&Frame::headers(1, block, true, false))
+        } && c.send(&Frame::data(1, BODY.to_vec(), true));
+        if !okk || wait_seen(req, T_IO).as_deref() != Some("old") {
+            return Err("the request head did not reach the old worker's backend".into());
+        }
+        ctl.log(open_ev("h2Await"));
+        return Ok(Conn::H2(Box::new(c)));
+    }
+    let mut t = tcp;
+    let mut m: Vec<u8> = Vec::new();
+    let stage = match sp.flow {
+        "expect" => {
+            m.extend_from_slice(flow_head("POST", req, "expect", Some(BODY.len()), "Expect: 100-continue\r\n").as_bytes());
+            "expectHead"
+        }
+        "hints" | "hints2" => {
+            m.extend_from_slice(flow_head("POST", req, sp.flow, Some(BODY.len()), "").as_bytes());
+            m.extend_from_slice(BODY);
+            "awaitResp"
+        }
+        "upgrade" => {
+            m.extend_from_slice(flow_head("GET", req, "upgrade", None, "Connection: Upgrade\r\nUpgrade: websocket\r\nSec-WebSocket-Version: 13\r\nSec-WebSocket-Key: dGhlIHNhbXBsZSBub25jZQ==\r\n").as_bytes());
+            "upgrading"
+        }
+        "early" => {
+            m.extend_from_slice(flow_head("POST", req, "early", Some(BODY.len()), "").as_bytes());
+            m.extend_from_slice(&BODY[..4]);
+            "midBody"
+        }
+        "pipelined" => {
+            m.extend_from_slice(flow_head("POST", req, "gate", Some(BODY.len()), "").as_bytes());
+            m.extend_from_slice(BODY);
+            m.extend_from_slice(h1_head(&format!("{req}b"), 0, BODY.len(), false).as_bytes());
+            m.extend_from_slice(BODY);
+            "pipelined"
+        }
+        f => return Err(format!("unknown flow {f}")),
+    };
+    t.write_all(&m).map_err(|e| format!("request: {e}"))?;
+    if wait_seen(req, T_IO).as_deref() != Some("old") {
+        return Err("the request head did not reach the old worker's backend".into());
+    }
+    ctl.log(open_ev(stage));
+    Ok(Conn::H1(t))
+}
+
+struct H1Msg {
+    status: u16,
+    head: String,
+    body: Vec<u8>,
+}
+/// one response message (interim responses have no body); Err: "eof" | "reset" | "timeout"
+fn h1_read_msg(t: &mut TcpStream, buf: &mut Vec<u8>, timeout: Duration) -> Result<H1Msg, &'static str> {
+    t.set_read_timeout(Some(Duration::from_millis(200))).ok();
+    let deadline = Instant::now() + timeout;
+    let mut tmp = [0u8; 4096];
+    loop {
+        if let Some(p) = find(buf, b"\r\n\r\n") {
+            let head = String::from_utf8_lossy(&buf[..p + 4]).to_string();
+            let status: u16 = head.split(' ').nth(1).and_then(|v| v.parse().ok()).unwrap_or(0);
+            let clen: usize = if status < 200 || status == 204 || status == 304 { 0 } else { header(&head, "content-length").and_then(|v| v.parse().ok()).unwrap_or(0) };
+            if buf.len() >= p + 4 + clen {
+                let body = buf[p + 4..p + 4 + clen].to_vec();
+                buf.drain(..p + 4 + clen);
+                return Ok(H1Msg { status, head, body });
+            }
+        }
+        if Instant::now() >= deadline {
+            return Err("timeout");
+        }
+        match t.read(&mut tmp) {
+            Ok(0) => return Err("eof"),
+            Ok(n) => buf.extend_from_slice(&tmp[..n]),
+            Err(e) if e.kind() == std::io::ErrorKind::WouldBlock || e.kind() == std::io::ErrorKind::TimedOut => {}
+            Err(_) => return Err("reset"),
+        }
+    }
+}
+
+/// (outcome, by) of a final response to `req`
+fn final_of(m: &H1Msg, req: &str) -> (String, String) {
+    if m.status == 200 {
+        if let Some((who, r)) = String::from_utf8_lossy(&m.body).split_once(':') {
+            if r == req {
+                return ("done".into(), who.to_string());
+            }
+        }
+    }
+    (format!("status{}", m.status), "none".into())
+}
+
+/// the client's part of a flow slot after its gate was opened: every step is logged where it happens
+/// (`Interim`: an interim response was received whole; `SlotRelease`: the client wrote the rest of its request;
+/// `SlotMid`: the first of two pipelined exchanges is complete); returns the end of the (last) exchange
+fn flow_read_out(s: &mut Slot, to: Duration, r: usize, ctl: &mut Ctl) -> (String, String, Value) {
+    let flow = s.spec.flow;
+    let mut interims: Vec<u16> = Vec::new();
+    let abort = |end: &str| -> String { if end == "timeout" { "timeout".into() } else { "cut".into() } };
+    match s.conn.as_mut() {
+        Some(Conn::H2(c)) => {
+            // interim HEADERS (1xx, no END_STREAM) before the final ones
+            let deadline = Instant::now() + to;
+            let mut body: Vec<u8> = Vec::new();
+            let mut status = String::new();
+            let (out, by) = loop {
+                let now = Instant::now();
+                if now >= deadline {
+                    break ("timeout".to_string(), "none".to_string());
+                }
+                let Some(f) = c.read_frame((deadline - now).min(Duration::from_millis(200))) else {
+                    if c.eof {
+                        break ("cut".to_string(), "none".to_string());
+                    }
+                    continue;
+                };
+                match f.ty {
+                    h2::SETTINGS if f.flags & h2::FLAG_ACK == 0 => {
+                        c.send(&Frame::settings_ack());
+                    }
+                    h2::HEADERS if f.sid == 1 => {
+                        for (k, v) in c.hp.decode(&f.payload).unwrap_or_default() {
+                            if k == b":status" {
+                                status = String::from_utf8_lossy(&v).to_string();
+                            }
+                        }
+                        if status.starts_with('1') && !f.end_stream() {
+                            let code: u16 = status.parse().unwrap_or(0);
+                            interims.push(code);
+                            ctl.log(json!({"e": "Interim", "r": r, "code": code}));
+                            status.clear();
+                        }
+                    }
+                    h2::DATA if f.sid == 1 => body.extend_from_slice(f.data_bytes().unwrap_or(&[])),
+                    h2::RST_STREAM if f.sid == 1 => break ("cut".to_string(), "none".to_string()),
+                    _ => {}
+                }
+                if f.sid == 1 && f.end_stream() {
+                    let b = String::from_utf8_lossy(&body).to_string();
+                    match b.split_once(':') {
+                        Some((who, rq)) if status == "200" && rq == s.req => break ("done".to_string(), who.to_string()),
+                        _ => break (format!("status{status}"), "none".to_string()),
+                    }
+                }
+            };
+            (out, by, json!({"flow": flow, "interims": interims}))
+        }
+        Some(Conn::H1(t)) => {
+            let mut buf: Vec<u8> = Vec::new();
+            let mut wrote: Option<bool> = None;
+            let mut tunnel: Option<String> = None;
+            let (out, by) = loop {
+                let m = match h1_read_msg(t, &mut buf, to) {
+                    Ok(m) => m,
+                    Err(end) => break (abort(end), "none".to_string()),
+                };
+                if m.status >= 100 && m.status < 200 && m.status != 101 {
+                    interims.push(m.status);
+                    ctl.log(json!({"e": "Interim", "r": r, "code": m.status}));
+                    if m.status == 100 && flow == "expect" && wrote.is_none() {
+                        // told to go on: the body follows
+                        let okw = t.write_all(BODY).is_ok();
+                        wrote = Some(okw);
+                        ctl.log(json!({"e": "SlotRelease", "r": r, "wrote": okw, "after": "100-continue"}));
+                    }
+                    continue;
+                }
+                if m.status == 101 {
+                    // the handshake is complete; what becomes of the tunnel is recorded, not judged (a stop closes
+                    // tunnels like TCP relays)
+                    let by = header(&m.head, "x-be").unwrap_or("none").to_string();
+                    let _ = t.write_all(b"ping\n");
+                    t.set_read_timeout(Some(Duration::from_millis(1500))).ok();
+                    let mut b = [0u8; 64];
+                    tunnel = Some(if !buf.is_empty() { "echo".into() } else {
+                        match t.read(&mut b) {
+                            Ok(0) => "closed".into(),
+                            Ok(_) => "echo".into(),
+                            Err(e) if e.kind() == std::io::ErrorKind::WouldBlock || e.kind() == std::io::ErrorKind::TimedOut => "silent".into(),
+                            Err(_) => "reset".into(),
+                        }
+                    });
+                    break (if flow == "upgrade" && by != "none" { "done".to_string() } else { "status101".to_string() }, by);
+                }
+                if flow == "pipelined" && !s.req.ends_with('b') {
+                    let (o, by) = final_of(&m, &s.req);
+                    if o != "done" {
+                        break (o, by);
+                    }
+                    // the first exchange is complete; the second request was written long ago
+                    ctl.log(json!({"e": "SlotMid", "r": r, "out": o, "by": by, "req": s.req}));
+                    ctl.log(json!({"e": "SlotRelease", "r": r, "wrote": true, "after": "pipelined"}));
+                    s.req = format!("{}b", s.req);
+                    continue;
+                }
+                break final_of(&m, &s.req);
+            };
+            (out, by, json!({"flow": flow, "interims": interims, "body_written": wrote, "tunnel": tunnel}))
+        }
+        None => ("cut".to_string(), "none".to_string(), json!({"flow": flow})),
+    }
+}
+
 /// what the environment does at the release moment of a parked slot; false: a write failed
 fn slot_release_io(s: &mut Slot) -> bool {
+    if !s.spec.flow.is_empty() {
+        resp_update(&s.req, |st| st.gate = true);
+        return true;
+    }
     if let Some(rc) = s.rc.as_mut() {
         if rc.spec.pause_at > 0 {
             resp_update(&s.req, |st| st.gate = true);
@@ -1492,7 +1816,10 @@ fn slot_release_io(s: &mut Slot) -> bool {
 }
 
 /// reads the answer of a released slot to its end: (outcome, by, what was measured)
-fn slot_read_out(s: &mut Slot, to: Duration) -> (String, String, Value) {
+fn slot_read_out(s: &mut Slot, to: Duration, r: usize, ctl: &mut Ctl) -> (String, String, Value) {
+    if !s.spec.flow.is_empty() {
+        return flow_read_out(s, to, r, ctl);
+    }
     if let Some(rc) = s.rc.as_mut() {
         let n = rc.spec.n;
         return match s.conn.as_mut() {
@@ -1767,7 +2094,7 @@ fn run_scenario(sc: &Scenario, be: &Backends, pause_ms: u64, jitter_ms: u64, see
     let cfg = json!({
         "mode": sc.mode, "order": sc.order, "crash": sc.crash, "deadline_s": sc.deadline_s,
         "addrs": sc.protos.iter().enumerate().map(|(i, p)| json!({"a": i + 1, "proto": p, "addr": addrs[i].to_string()})).collect::<Vec<_>>(),
-        "slots": sc.slots.iter().enumerate().map(|(i, s)| json!({"r": i + 1, "stage": s.stage, "partial": s.partial, "release": s.release, "resp": s.resp.as_ref().map(|x| x.json()), "big_first": s.big_first, "tcp_stall": s.tcp_stall})).collect::<Vec<_>>(),
+        "slots": sc.slots.iter().enumerate().map(|(i, s)| json!({"r": i + 1, "stage": s.stage, "partial": s.partial, "release": s.release, "resp": s.resp.as_ref().map(|x| x.json()), "big_first": s.big_first, "tcp_stall": s.tcp_stall, "flow": s.flow})).collect::<Vec<_>>(),
     });
     let fail = |why: String, ctl: &Ctl| json!({"run": sc.run, "cfg": cfg, "invalid": why, "ctl": ctl.ev, "ham": []});
 
@@ -1816,6 +2143,18 @@ fn run_scenario(sc: &Scenario, be: &Backends, pause_ms: u64, jitter_ms: u64, see
                 }
                 Err(e) => {
                     invalid = Some(format!("response slot {r} ({}): {e}", sp.stage));
+                    break;
+                }
+            }
+        }
+        if !sp.flow.is_empty() {
+            match open_flow_slot(sp, r, ai + 1, addrs[ai], &req, &mut ctl) {
+                Ok(conn) => {
+                    slots.push(Slot { spec: sp.clone(), a: ai + 1, conn: Some(conn), req: req.clone(), body_sent: 0, head_sent: 0, full: vec![], ended: false, released: false, rc: None });
+                    continue;
+                }
+                Err(e) => {
+                    invalid = Some(format!("flow slot {r} ({}): {e}", sp.flow));
                     break;
                 }
             }
@@ -1912,11 +2251,11 @@ fn run_scenario(sc: &Scenario, be: &Backends, pause_ms: u64, jitter_ms: u64, see
         }
         // a client parked in the middle of its response stays silent for a while after the stop: the first
         // passes of shut_down_sessions see the session with its response half delivered
-        if when != "beforeStop" && slots.iter().any(|s| !s.ended && s.spec.release == when && s.rc.is_some()) {
+        if when != "beforeStop" && slots.iter().any(|s| !s.ended && s.spec.release == when && (s.rc.is_some() || !s.spec.flow.is_empty())) {
             if ctl.stop_at.is_some() {
                 thread::sleep(Duration::from_millis(ctl.resume_ms));
             }
-            let h2 = slots.iter().any(|s| !s.ended && s.spec.release == when && s.rc.is_some() && matches!(s.conn, Some(Conn::H2(_))));
+            let h2 = slots.iter().any(|s| !s.ended && s.spec.release == when && (s.rc.is_some() || !s.spec.flow.is_empty()) && matches!(s.conn, Some(Conn::H2(_))));
             if let Some(t0) = ctl.stop_at {
                 if h2 && t0.elapsed() > Duration::from_millis(3500) {
                     ctl.inconclusive = Some(format!("overloaded: the parked client resumed {} ms after the stop, too close to the graceful deadline", t0.elapsed().as_millis()));
@@ -1930,7 +2269,10 @@ fn run_scenario(sc: &Scenario, be: &Backends, pause_ms: u64, jitter_ms: u64, see
             let okw = slot_release_io(s);
             s.released = true;
             let since = ctl.stop_at.map(|t| t.elapsed().as_millis() as u64);
-            ctl.log(json!({"e": "SlotRelease", "r": i + 1, "wrote": okw, "ms_since_stop_sent": since}));
+            // a flow slot is released by its BACKEND (the gate opens: the interim response, the 101, the early
+            // answer leave now); what the client then writes is logged where it happens
+            let what = if s.spec.flow.is_empty() { "SlotRelease" } else { "GateOpen" };
+            ctl.log(json!({"e": what, "r": i + 1, "wrote": okw, "ms_since_stop_sent": since}));
         }
         for (i, s) in slots.iter_mut().enumerate() {
             if s.ended || s.spec.release != when {
@@ -1950,7 +2292,7 @@ fn run_scenario(sc: &Scenario, be: &Backends, pause_ms: u64, jitter_ms: u64, see
                 }
             }
             let to = slot_timeout(s, old_dead);
-            let (out, by, extra) = slot_read_out(s, to);
+            let (out, by, extra) = slot_read_out(s, to, i + 1, ctl);
             s.ended = true;
             let since = ctl.stop_at.map(|t| t.elapsed().as_millis() as u64);
             let mut e = slot_end_event(i + 1, s, &out, &by, extra);
@@ -2178,10 +2520,11 @@ fn run_scenario(sc: &Scenario, be: &Backends, pause_ms: u64, jitter_ms: u64, see
         if !s.released {
             let okw = slot_release_io(s);
             s.released = true;
-            ctl.log(json!({"e": "SlotRelease", "r": i + 1, "wrote": okw}));
+            let what = if s.spec.flow.is_empty() { "SlotRelease" } else { "GateOpen" };
+            ctl.log(json!({"e": what, "r": i + 1, "wrote": okw}));
         }
         let to = slot_timeout(s, &old_dead);
-        let (out, by, extra) = slot_read_out(s, to);
+        let (out, by, extra) = slot_read_out(s, to, i + 1, &mut ctl);
         s.ended = true;
         let e = slot_end_event(i + 1, s, &out, &by, extra);
         ctl.log(e);
@@ -2345,7 +2688,7 @@ const CRASHES: [&str; 5] = ["afterReturn", "afterReceived", "afterSuccStarted", 
 const LSETS: [&[&str]; 4] = [&["http", "https", "tcp"], &["http", "https"], &["https", "udp", "http"], &["tcp", "http", "https"]];
 
 fn slot(i: usize, release: &'static str) -> SlotSpec {
-    SlotSpec { stage: STAGES[i].0, partial: STAGES[i].1, release, resp: None, big_first: false, tcp_stall: false }
+    SlotSpec { stage: STAGES[i].0, partial: STAGES[i].1, release, resp: None, big_first: false, tcp_stall: false, flow: "" }
 }
 
 /// a slot parked while its response is being delivered. Sizes: H1 tail 128-256 KiB (>= 8 x the worker's buffer,
@@ -2359,7 +2702,7 @@ fn rslot(stage: &'static str, framing: &'static str, close: bool, release: &'sta
         "respStreaming" => (rng.random_range(80_000..160_000usize), rng.random_range(24..48usize) * CHUNK),
         _ => (rng.random_range(40_000..60_000usize), rng.random_range(12..24usize) * CHUNK),
     };
-    SlotSpec { stage, partial: false, release, resp: Some(RespSpec { framing, close: close || framing == "eof", n, pause_at }), big_first, tcp_stall: false }
+    SlotSpec { stage, partial: false, release, resp: Some(RespSpec { framing, close: close || framing == "eof", n, pause_at }), big_first, tcp_stall: false, flow: "" }
 }
 
 /// H2 tail behind a full socket instead of exhausted windows: a response much larger than what the worker can hold
@@ -2476,6 +2819,47 @@ fn scenarios(thorough: bool, rng: &mut StdRng) -> Vec<Scenario> {
         push(&mut v, "handover", "upgradeRs", LSETS[0], vec![rslot("respStreaming", "eof", true, "afterStop", false, rng), rslot("h2RespTail", "cl", true, "afterStop", true, rng)], "none", 0);
         push(&mut v, "handover", "stopFirst", LSETS[1], vec![rslot("h2RespStreaming", "chunked", true, "afterStop", false, rng), rslot("respTail", "eof", true, "afterAll", false, rng)], "none", 0);
     }
+    // life stages of an exchange beyond "request, then response": the stop (or the hand-over and the stop) arrives
+    // while the client withholds its body until `100 Continue`, before 103 Early Hints, during an upgrade handshake,
+    // while the body is still being uploaded and the backend answers early, with a second request pipelined
+    // behind the one in flight; the backend's next message leaves a few hundred ms after the stop
+    let fslot = |flow: &'static str, release: &'static str| -> SlotSpec {
+        let stage = match flow {
+            "expect" => "expectHead",
+            "upgrade" => "upgrading",
+            "early" => "midBody",
+            "pipelined" => "pipelined",
+            "h2hints" => "h2Await",
+            _ => "awaitResp",
+        };
+        SlotSpec { stage, partial: false, release, resp: None, big_first: false, tcp_stall: false, flow: if flow == "h2hints" { "hints" } else { flow } }
+    };
+    const FLOWS: [&str; 7] = ["expect", "hints", "hints2", "upgrade", "early", "pipelined", "h2hints"];
+    if thorough {
+        let mut k = 0usize;
+        for (mode, ord) in [("handover", "upgradeRs"), ("handover", "stopFirst"), ("handover", "startFirst"), ("softstop", "stopFirst")] {
+            for (f, flow) in FLOWS.iter().enumerate() {
+                for rel in ["afterStop", "afterAll", "beforeStop"] {
+                    k += 1;
+                    let other = match k % 3 {
+                        0 => slot(rng.random_range(0..STAGES.len()), RELEASES[k % 3]),
+                        _ => fslot(FLOWS[(f + k) % FLOWS.len()], "afterStop"),
+                    };
+                    push(&mut v, mode, ord, LSETS[k % LSETS.len()], vec![fslot(flow, rel), other], "none", 0);
+                }
+            }
+        }
+    } else {
+        let o = rng.random_range(0..STAGES.len());
+        let h = if rng.random_range(0..2usize) == 0 { "hints" } else { "hints2" };
+        push(&mut v, "softstop", "stopFirst", LSETS[1], vec![fslot("expect", "afterStop"), fslot(h, "afterStop")], "none", 0);
+        push(&mut v, "handover", "upgradeRs", LSETS[0], vec![fslot("expect", "afterStop"), fslot("upgrade", "afterStop")], "none", 0);
+        push(&mut v, "handover", "stopFirst", LSETS[2], vec![fslot("hints2", "afterStop"), fslot("pipelined", "afterStop")], "none", 0);
+        push(&mut v, "softstop", "stopFirst", LSETS[0], vec![fslot("h2hints", "afterStop"), fslot("early", "afterStop")], "none", 0);
+        push(&mut v, "handover", "startFirst", LSETS[3], vec![fslot("pipelined", "afterStop"), fslot("expect", "afterAll")], "none", 0);
+        push(&mut v, "softstop", "stopFirst", LSETS[1], vec![fslot("upgrade", "afterStop"), slot(o, RELEASES[o % 3])], "none", 0);
+        push(&mut v, "handover", "upgradeRs", LSETS[1], vec![fslot("hints", "afterStop"), fslot("h2hints", "afterAll")], "none", 0);
+    }
     v
 }
 
@@ -2489,6 +2873,7 @@ fn main() {
     let mut jitter_ms = 4u64;
     let mut limit: Option<usize> = None;
     let mut resp_only = false;
+    let mut flow_only = false;
     let mut i = 1;
     while i < args.len() {
         match args[i].as_str() {
@@ -2500,6 +2885,7 @@ fn main() {
             "--jitter-ms" => { jitter_ms = args[i + 1].parse().unwrap_or(4); i += 1; }
             "--limit" => { limit = args[i + 1].parse().ok(); i += 1; }
             "--resp-only" => { resp_only = true; }
+            "--flow-only" => { flow_only = true; }
             _ => {}
         }
         i += 1;
@@ -2511,6 +2897,9 @@ fn main() {
     }
     if resp_only {
         scs.retain(|s| s.slots.iter().any(|x| x.resp.is_some()));
+    }
+    if flow_only {
+        scs.retain(|s| s.slots.iter().any(|x| !x.flow.is_empty()));
     }
     if let Some(l) = limit {
         scs.truncate(l);
